@@ -24,8 +24,8 @@ import (
 	govtypes "github.com/cosmos/cosmos-sdk/x/gov/types"
 	stakingtypes "github.com/cosmos/cosmos-sdk/x/staking/types"
 	"github.com/ethereum/go-ethereum/common"
-	"github.com/ethereum/go-ethereum/crypto"
 	ethtypes "github.com/ethereum/go-ethereum/core/types"
+	"github.com/ethereum/go-ethereum/crypto"
 	abci "github.com/tendermint/tendermint/abci/types"
 	"github.com/tendermint/tendermint/libs/log"
 	tmproto "github.com/tendermint/tendermint/proto/tendermint/types"
@@ -49,6 +49,7 @@ const (
 	nVals    = 3
 	nEOAs    = 3
 	nProxies = 3
+	nBatches = 2
 	chainID  = "teleport_9000-1"
 )
 
@@ -76,6 +77,7 @@ type Env struct {
 	valOper []sdk.ValAddress
 	valCons []sdk.ConsAddress
 	proxies []common.Address
+	batches []common.Address
 	emitter common.Address
 	created []common.Address // addresses created by constructor-caller transactions (tracked for counters)
 	inBlock bool
@@ -190,21 +192,31 @@ func NewEnv() *Env {
 		e.proxies = append(e.proxies, e.deploy(deployer(proxyRuntime())))
 	}
 	e.emitter = e.deploy(deployer(emitterRuntime()))
-	for _, p := range e.proxies {
+	for i := 0; i < nBatches; i++ {
+		e.batches = append(e.batches, e.deploy(deployer(batchRuntime())))
+	}
+	for _, p := range append(append([]common.Address{}, e.proxies...), e.batches...) {
 		e.Fund(p, helperFunds)
 	}
 	e.Fund(e.emitter, helperFunds)
 	e.Fund(stakingAddr, helperFunds) // the system contracts themselves hold coins: a look-alike must not spend them
 	e.Fund(govAddr, helperFunds)
 
-	// proposals: 1 = voting period, 2 = deposit period (inactive for votes)
+	// proposals: 1, 3 = voting period (full deposit), 2 = deposit period (inactive for votes) holding HALF the minimum
+	// deposit: when its deposit period ends the deposit is burned (gov EndBlocker -> DeleteDeposits -> BurnCoins)
 	ctx := e.Ctx()
 	minDep := a.GovKeeper.GetDepositParams(ctx).MinDeposit
 	p1, err := a.GovKeeper.SubmitProposal(ctx, govtypes.NewTextProposal("p1", "voting"))
 	must(err)
 	_, err = a.GovKeeper.AddDeposit(ctx, p1.ProposalId, e.faucet.addr.Bytes(), minDep)
 	must(err)
-	_, err = a.GovKeeper.SubmitProposal(ctx, govtypes.NewTextProposal("p2", "deposit"))
+	p2, err := a.GovKeeper.SubmitProposal(ctx, govtypes.NewTextProposal("p2", "deposit"))
+	must(err)
+	var half sdk.Coins
+	for _, c := range minDep {
+		half = append(half, sdk.NewCoin(c.Denom, c.Amount.QuoRaw(2)))
+	}
+	_, err = a.GovKeeper.AddDeposit(ctx, p2.ProposalId, e.faucet.addr.Bytes(), half)
 	must(err)
 	p3, err := a.GovKeeper.SubmitProposal(ctx, govtypes.NewTextProposal("p3", "voting"))
 	must(err)
@@ -434,6 +446,7 @@ func (e *Env) Snapshot(withRewards bool) Snap {
 		sort.Slice(l, func(i, j int) bool { return l[i].K < l[j].K })
 	}
 	ctrAddrs := append(append([]common.Address{}, e.proxies...), e.emitter)
+	ctrAddrs = append(ctrAddrs, e.batches...)
 	ctrAddrs = append(ctrAddrs, e.created...)
 	for _, p := range ctrAddrs {
 		v := a.EvmKeeper.GetState(ctx, p, common.Hash{})
@@ -443,7 +456,12 @@ func (e *Env) Snapshot(withRewards bool) Snap {
 		for _, k := range delKeys {
 			cctx, _ := ctx.CacheContext()
 			da, _ := sdk.AccAddressFromBech32(k.d)
-			cs, err := a.DistrKeeper.WithdrawDelegationRewards(cctx, da, e.valOper[k.v])
+			var cs sdk.Coins
+			var err error
+			if p, val := hlib.Catch(func() { cs, err = a.DistrKeeper.WithdrawDelegationRewards(cctx, da, e.valOper[k.v]) }); p {
+				other = append(other, "rew-panic:"+val)
+				continue
+			}
 			if err != nil {
 				other = append(other, "rew-err:"+err.Error())
 				continue
